@@ -129,7 +129,12 @@ where
             WaitingProjected::NoPool => Poll::Ready(WaitingPoll::Closed),
         };
 
-        if polled.is_ready() {
+        // Keep the receiver while nothing has arrived yet (`NotReady`): a connection which is
+        // returned to the pool later must still be able to reach, and wake, this checkout.
+        if matches!(
+            polled,
+            Poll::Ready(WaitingPoll::Connected(_) | WaitingPoll::Closed)
+        ) {
             self.as_mut().set(Waiting::NoPool);
         };
 
